@@ -17,12 +17,16 @@ import typing as typ
 from collections.abc import Iterable, Sequence
 
 import chartparse.globalevents
+import chartparse.instrument
+import chartparse.sync
 from chartparse.event import Event
 from chartparse.exceptions import RegexNotMatchError, UnreachableError
-from chartparse.instrument import StarPowerEvent, TrackEvent
-from chartparse.sync import AnchorEvent, BPMEvent, BPMEvents, TimeSignatureEvent
 from chartparse.tick import Ticks
 from chartparse.util import DictPropertiesEqMixin, DictReprTruncatedSequencesMixin
+
+if typ.TYPE_CHECKING:  # pragma: no cover
+    from chartparse.instrument import StarPowerEvent, TrackEvent
+    from chartparse.sync import AnchorEvent, BPMEvent, BPMEvents, TimeSignatureEvent
 
 logger = logging.getLogger(__name__)
 
@@ -191,6 +195,14 @@ def build_events_from_data(
     | list[chartparse.globalevents.SectionEvent]
     | list[chartparse.globalevents.TextEvent]
 ):
+    # These are looked up at call time because there is otherwise a circular import.
+    AnchorEvent = chartparse.sync.AnchorEvent
+    BPMEvent = chartparse.sync.BPMEvent
+    BPMEvents = chartparse.sync.BPMEvents
+    TimeSignatureEvent = chartparse.sync.TimeSignatureEvent
+    StarPowerEvent = chartparse.instrument.StarPowerEvent
+    TrackEvent = chartparse.instrument.TrackEvent
+
     def data_to_anchor_events(datas: Iterable[AnchorEvent.ParsedData]) -> list[AnchorEvent]:
         events: list[AnchorEvent] = []
         for data in datas:
